@@ -137,16 +137,15 @@ EXPORT int _vswprintf_s_chk(wchar_t *restrict dest, rsize_t dmax,
         }
     }
 
-    if (unlikely(fmt == NULL)) {
-        invoke_safe_str_constraint_handler("vswprintf_s: fmt is null",
-                                           (void *)dest, ESNULLP);
-        return -(ESNULLP);
-    }
 
     if (unlikely(dmax == 0)) {
         invoke_safe_str_constraint_handler("vswprintf_s: dmax is 0",
                                            (void *)dest, ESZEROL);
         return -(ESZEROL);
+    }
+    if (unlikely(fmt == NULL)) { /* dest and dmax are usable: clear dest */
+        handle_werror(dest, dmax, "vswprintf_s: fmt is null", ESNULLP);
+        return -(ESNULLP);
     }
 
 #if defined(HAVE_WCSSTR) || !defined(SAFECLIB_DISABLE_EXTENSIONS)
